@@ -94,7 +94,15 @@ fn evaluate(slot: &mut Slot, current: &Arc<Mutex<Option<(RootedThread, std::time
             Ok(Err(e)) => json!({"id": id, "status": "rejected", "msg": first_lines(&format!("{}", e))}),
             Err(p) => {
                 slot.uses = RENEW;
-                json!({"id": id, "status": "checker-panic", "msg": panic_text(p), "at": PANIC_AT.with(|p| p.borrow().clone())})
+                let at = PANIC_AT.with(|p| p.borrow().clone());
+                // `typecheck_str` compiles and runs the modules the program imports: a panic inside
+                // the compiler / VM (vm/src) means an imported module had been ACCEPTED and then
+                // failed; let the run phase see it
+                if at.as_deref().map_or(false, |a| a.contains("/vm/src/")) {
+                    json!({"id": id, "status": "accepted", "type": "?", "note": "an imported module panics in the compiler"})
+                } else {
+                    json!({"id": id, "status": "checker-panic", "msg": panic_text(p), "at": at})
+                }
             }
         };
     }
@@ -144,7 +152,11 @@ fn evaluate(slot: &mut Slot, current: &Arc<Mutex<Option<(RootedThread, std::time
                 }
             }
             let chk = std::panic::catch_unwind(std::panic::AssertUnwindSafe(|| fresh.typecheck_str(&name, main, None)));
+            // a panic inside vm/src (core translation, bytecode compiler, interpreter) happens after
+            // the checker accepted the code that was being compiled (the program or an imported module)
+            let in_vm = at.as_deref().map_or(false, |a| a.contains("/vm/src/"));
             let status = match chk {
+                _ if in_vm => "panic",
                 Ok(Ok(_)) => "panic",
                 Ok(Err(_)) => "rejected",
                 Err(_) => "checker-panic",
